@@ -396,6 +396,13 @@ extern void (*io_write_preset)(struct snapraid_io* io, block_off_t blockcur, int
 extern void (*io_write_next)(struct snapraid_io* io, block_off_t blockcur, int skip, int* writer_error);
 
 /**
+ * Get the errors of the writes completed after the last call at io_write_next().
+ * It must be called after io_stop().
+ * \param writer_error Return the number of errors. Vector of IO_WRITER_ERROR_MAX elements.
+ */
+void io_write_flush_errors(struct snapraid_io* io, int* writer_error);
+
+/**
  * Refresh the number of cached blocks for all data and parity disks.
  */
 extern void (*io_refresh)(struct snapraid_io* io);
